@@ -10,8 +10,9 @@ from . import props_c10  # noqa: F401
 from . import reconsim
 from . import walksim
 from . import matchsim
+from . import subsim
 
-OTHER = {'C13': reconsim, 'C15': walksim, 'C17': matchsim}
+OTHER = {'C13': reconsim, 'C15': walksim, 'C17': matchsim, 'C18': subsim}
 
 
 def _engine_for(prop):
